@@ -40,6 +40,27 @@ def read_footer(path, is_meta):
     return loc, flen, io.tell(), fmd, data
 
 
+def kv_get(kvd, kb):
+    """entry of ParquetFile.key_value_metadata for the key stored as bytes kb (text keys are presented as str)"""
+    try:
+        ks = kb.decode()
+        if ks in kvd:
+            return kvd[ks]
+    except UnicodeDecodeError:
+        pass
+    return kvd.get(kb)
+
+
+def text_problems(kvd, given_text):
+    """a value handed over as text comes back as that text (str), whatever its key looks like"""
+    out = []
+    for kb, sv in given_text.items():
+        got = kv_get(kvd, kb)
+        if not (isinstance(got, str) and got == sv):
+            out.append(f"value given as text {sv[:30]!r} for key {kb!r} is returned as {got!r:.60}")
+    return out
+
+
 def kv_list(fmd):
     return [(bytes(b(kv.key)), bytes(b(kv.value))) for kv in (fmd.key_value_metadata or [])]
 
@@ -53,16 +74,32 @@ def scenarios(ctx):
         for _ in range(rng.choice([0, 1, 2, 4])):
             k = rng.choice(["a", "b", "c", "dé", "key with space", "k" * 40])
             init[k] = rng.choice(["", "v", "x" * rng.randrange(1, 140), "üñï", "z" * 200])
+        if s < 2:
+            # directed: four keys, both file kinds, whatever the seed (multi-key updates need several existing keys)
+            kind = ["data", "metadata"][s]
+            init = {"a": "v", "b": "x" * 17, "c": "", "dé": "üñï"}
         if rng.random() < 0.3:
             init = {b(k): b(v) for k, v in init.items()}
+        if s < 4:
+            # a key that is not text, with a text value and with a value that is not text either
+            init[b"\xff\xfekey"] = "text value"
+            init[b"\xfe\xffbin"] = b"\xff\x00\xfe"
         yield s, kind, init
 
 
-def updates_for(rng, current, step, nsteps):
+def updates_for(rng, current, step, nsteps, directed=False):
     """choose an update dict; aim for specific footer size deltas (shrink by 1..16, grow, same)"""
     keys = [k for k in current if k != b"pandas"]
     upd = {}
     mode = rng.choice(["shrink", "shrink", "grow", "same", "remove", "add", "mix"])
+    if directed and step == 0 and len(keys) >= 3:
+        # one call that removes a key, then replaces and removes keys stored after it (footer order)
+        upd[keys[0]] = None
+        upd[keys[1]] = b"R" * 5
+        upd[keys[-1]] = None
+        upd[b"mix0"] = b"m"
+        mode = "mix"
+        return {k: v for k, v in upd.items()}, mode
     if mode == "shrink" and keys:
         k = rng.choice(keys)
         cur = current[k]
@@ -137,19 +174,25 @@ def run(ctx, report):
         # write-time metadata verbatim
         pf = fastparquet.ParquetFile(path)
         kvd = pf.key_value_metadata
+        given_text = {b(k): v for k, v in init.items() if isinstance(v, str)}
         for k, v in init.items():
-            ks = k.decode() if isinstance(k, bytes) else k
-            vs = v.decode() if isinstance(v, bytes) else v
-            if kvd.get(ks) != vs:
-                report.violation({"check": "verbatim-at-write", "key": ks, "expected": vs, "actual": kvd.get(ks),
+            try:
+                vs = v.decode() if isinstance(v, bytes) else v
+            except UnicodeDecodeError:
+                vs = v
+            actual = kv_get(kvd, b(k))
+            if actual != vs:
+                report.violation({"check": "verbatim-at-write", "key": str(k), "expected": str(vs), "actual": str(actual),
                                   "what": "custom_metadata given at write time is not returned verbatim", "sig": "verbatim"})
+        for pr in text_problems(kvd, given_text):
+            report.violation({"check": "verbatim-at-write", "what": pr, "sig": "verbatim-text"})
         report.case(("write", kind, tuple(sorted((str(k), str(v)) for k, v in init.items()))), nontrivial=bool(init))
         loc, flen, consumed, fmd0, bytes0 = read_footer(target, is_meta)
         model = dict(kv_list(fmd0))
         other0 = fmd0
         steps = 5 if ctx.quick else 10
         for step in range(steps):
-            upd, mode = updates_for(rng, model, step, steps)
+            upd, mode = updates_for(rng, model, step, steps, directed=s < 2)
             before = open(target, "rb").read()
             loc_b, flen_b, cons_b, fmd_b, _ = read_footer(target, is_meta)
             kv_before = kv_list(fmd_b)
@@ -166,8 +209,12 @@ def run(ctx, report):
                 kb = b(k)
                 if v is None:
                     model.pop(kb, None)
+                    given_text.pop(kb, None)
                 else:
                     model[kb] = b(v)
+                    given_text.pop(kb, None)
+                    if isinstance(v, str):
+                        given_text[kb] = v
             if err:
                 report.violation({**rec, "what": "update raised: " + err[:200], "sig": "update-raised"})
                 break
@@ -199,6 +246,7 @@ def run(ctx, report):
                 kvd = pf2.key_value_metadata
                 if {b(k): b(v) for k, v in kvd.items()} != model:
                     problems.append("ParquetFile.key_value_metadata differs from the dict model")
+                problems += text_problems(kvd, given_text)
             except Exception as e:  # noqa
                 # measure the intended size delta from the kv change to describe the failure
                 problems.append("file unreadable after update: " + canon_err(e) + " " + str(e)[:120])
